@@ -33,7 +33,7 @@ class Property(Base):
     def property_failure(self, block, I, S, M):
         ops = [l for l in block[1:] if l != "END"]
         for l in I:
-            if l.endswith(" PANIC") or l.endswith(" ABORT"):
+            if l.endswith(" PANIC") or l.endswith(" ABORT") or l.endswith(" SKIPPED"):
                 return "implementation crashed: " + l
         if len(I) != len(ops) or len(S) != len(ops):
             return f"observation count mismatch ({len(ops)} calls, {len(I)} observations)"
@@ -41,6 +41,9 @@ class Property(Base):
         for k, (op, i, s) in enumerate(zip(ops, I, S)):
             pi, ps = i.split(" "), s.split(" ")
             kind = pi[1]
+            if kind == "REINIT":
+                prev_out = "0 -"
+                continue
             if kind == "ID":
                 if pi[2] != ps[2]:
                     return f"call {k} `{op[:40]}`: interned id {pi[2]}, expected fresh id {ps[2]}"
